@@ -213,7 +213,9 @@ class Parser:
         name = self.expect_id()
         if name == "_":
             return ("pwild",)
-        if name == "mut":
+        if name in ("mut", "ref"):
+            if self.at_id("mut"):
+                self.next()
             return ("pid", self.expect_id())
         if name in ("true", "false"):
             return ("pbool", name == "true")
@@ -283,6 +285,9 @@ class Parser:
             if p[0] == "op" and p[1] in BINPREC and BINPREC[p[1]] > minprec:
                 op = self.next()[1]
                 if op in ("..", "..="):
+                    if self.peek()[0] == "op" and self.peek()[1] in ("]", ")", ",", ";", "{"):
+                        lhs = ("range", lhs, None, False)      # `a..`
+                        continue
                     rhs = self.expr(BINPREC[op])
                     lhs = ("range", lhs, rhs, op == "..=")
                 else:
@@ -385,7 +390,19 @@ class Parser:
             return ("tuple", items)
         if self.at("["):
             self.next()
-            return ("array", self.args("]"))
+            if self.at("]"):
+                self.next()
+                return ("array", [])
+            first = self.expr()
+            if self.at(";"):
+                self.next()
+                n = self.expr()
+                self.expect("]")
+                return ("arrayrep", first, n)
+            items = [first]
+            if self.at(","):
+                self.next()
+            return ("array", items + self.args("]"))
         if self.at("{"):
             return self.block()
         if self.at("|") or self.at("||"):
@@ -429,6 +446,9 @@ class Parser:
             if name == "break":
                 self.next()
                 return ("break",)
+            if name == "continue":
+                self.next()
+                return ("continue",)
             if name == "while":
                 self.next()
                 self.no_struct += 1
@@ -436,7 +456,22 @@ class Parser:
                 self.no_struct -= 1
                 return ("while", c, self.block())
             self.next()
-            if self.at("!") and name in KNOWN_MACROS and self.peek(1)[0] == "op" and self.peek(1)[1] == "(":
+            if self.at("!") and self.peek(1)[0] == "op" and self.peek(1)[1] in ("[", "{") and name != "matches":
+                # a macro with bracket or brace delimiters (vec![..]): skipped as a whole
+                self.next()
+                opener = self.next()[1]
+                closer = {"[": "]", "{": "}"}[opener]
+                depth = 1
+                while depth:
+                    q = self.next()
+                    if q[0] == "eof":
+                        raise Untranslatable("unterminated macro")
+                    if q[0] == "op" and q[1] == opener:
+                        depth += 1
+                    elif q[0] == "op" and q[1] == closer:
+                        depth -= 1
+                return ("macro", name, [])
+            if self.at("!") and self.peek(1)[0] == "op" and self.peek(1)[1] == "(" and (name in KNOWN_MACROS or name[0].islower()):
                 self.next(); self.next()
                 if name == "matches":
                     saved, self.no_struct = self.no_struct, 0
@@ -452,7 +487,22 @@ class Parser:
                     self.expect(")")
                     self.no_struct = saved
                     return ("matches", subject, pat, guard)
-                return ("macro", name, self.args())
+                start = self.i
+                try:
+                    return ("macro", name, self.args())
+                except Untranslatable:
+                    # arguments outside the expression subset (vec![x; n], format strings): skipped as a whole
+                    self.i = start
+                    depth = 1
+                    while depth:
+                        q = self.next()
+                        if q[0] == "eof":
+                            raise Untranslatable("unterminated macro")
+                        if q[0] == "op" and q[1] == "(":
+                            depth += 1
+                        elif q[0] == "op" and q[1] == ")":
+                            depth -= 1
+                    return ("macro", name, [])
             segs = [name]
             while self.at("::"):
                 self.next()
@@ -497,7 +547,18 @@ class Parser:
     def if_expr(self):
         self.next()
         if self.at_id("let"):
-            raise Untranslatable("if let")
+            self.next()
+            pat = self.pattern()
+            self.expect("=")
+            self.no_struct += 1
+            subject = self.expr()
+            self.no_struct -= 1
+            thn = self.block()
+            els = None
+            if self.at_id("else"):
+                self.next()
+                els = self.if_expr() if self.at_id("if") else self.block()
+            return ("iflet", pat, subject, thn, els)
         self.no_struct += 1
         c = self.expr()
         self.no_struct -= 1
@@ -574,7 +635,7 @@ class Parser:
             return ("expr", e), False
         if self.at("}"):
             return ("expr", e), True
-        if e[0] in ("if", "match", "block", "for", "loop", "while"):
+        if e[0] in ("if", "iflet", "match", "block", "for", "loop", "while"):
             return ("expr", e), False
         raise Untranslatable("expected `;` or `}` after expression, found %r" % (self.peek(),))
 
@@ -596,7 +657,7 @@ class Parser:
                 stmts.append(s)
         self.expect("}")
         # an if/match in last position without `;` is the tail expression
-        if tail is None and stmts and stmts[-1][0] == "expr" and stmts[-1][1][0] in ("if", "match", "block"):
+        if tail is None and stmts and stmts[-1][0] == "expr" and stmts[-1][1][0] in ("if", "iflet", "match", "block"):
             tail = stmts.pop()[1]
         return ("block", stmts, tail)
 
